@@ -718,6 +718,14 @@ func c19ExecMeth(in *c19Input) (*Case, error) {
 	}()
 	cs := &Case{Obs: obs, Nontrivial: true}
 	cs.Class = fmt.Sprintf("meth/%s/%s", c19Shape(in.R), in.R.flags())
+	// Next / Previous leave the 64-bit heights: end (or start, open-ended) + size overflows, or size > start
+	top := in.R.Start
+	if in.R.End != nil {
+		top = *in.R.End
+	}
+	if top+in.Size < top || in.Size > in.R.Start {
+		cs.Class += "/wraps"
+	}
 	cs.Key = fmt.Sprintf("m:%s:%d:%d:%s", in.R.key(), in.N, in.Size, in.Cand.key())
 	if obs.Panic != "" {
 		cs.Class += "/panic"
